@@ -19,11 +19,14 @@ CACHE = os.path.join(VERIF, "out", "cache")
 GUARD = "ISAL_CRYPTO_VERIF"
 SRC_EXT = (".c", ".h", ".asm", ".inc", ".am", ".S", ".unx", ".mk", ".def")
 
+# HAVE_AS_KNOWS_AVX512 is what the autotools build (the pinned baseline) passes to the assembler; Makefile.unx alone does not,
+# which would leave the SM3 AVX-512 candidates out of the dispatcher
+ASDEFS = ["HAVE_AS_KNOWS_AVX512"]
 VARIANTS = {
-    "def":  ["D=" + GUARD],
-    "fips": ["D=" + GUARD, "FIPS_MODE=y"],
-    "nohook": [],
-    "nosafe": ["D=" + GUARD, "SAFE_DATA=n"],
+    "def":  ["D=" + " ".join([GUARD] + ASDEFS)],
+    "fips": ["D=" + " ".join([GUARD] + ASDEFS), "FIPS_MODE=y"],
+    "nohook": ["D=" + " ".join(ASDEFS)],
+    "nosafe": ["D=" + " ".join([GUARD] + ASDEFS), "SAFE_DATA=n"],
 }
 
 
